@@ -4,7 +4,7 @@ CONSTANTS
     MaxCerts = 2
     PerBagLegacy = 4
     PerBagGov = 2
-    FlagEvery = 5
+    FlagEvery = 6
 INIT Init
 NEXT Next
 INVARIANT VariantSane
